@@ -292,7 +292,7 @@ func c11Gen(t *rapid.T) c11Case {
 	for len(c.Ops) < n {
 		kind := "create"
 		if ntables > 0 {
-			w := []string{"insert", "insert", "insert", "insert", "insert", "update", "delete", "delete", "flush", "reload", "reopen", "crash"}
+			w := []string{"insert", "insert", "insert", "insert", "insert", "update", "delete", "delete", "flush", "reload", "reopen", "crash", "wipe"}
 			if ntables < maxTables {
 				w = append(w, "create")
 			}
@@ -307,6 +307,9 @@ func c11Gen(t *rapid.T) c11Case {
 			op.Table = rapid.IntRange(0, ntables-1).Draw(t, "tbl")
 			op.N = rapid.SampledFrom([]int{1, 1, 2, 4, 8, 9, 10, 17, 40}).Draw(t, "n")
 			op.Size = rapid.SampledFrom([]int{1, 1, 10, 100, 390}).Draw(t, "size")
+		case "wipe":
+			// every live row of the tree deleted in one go (a queue that was drained, DELETE without WHERE)
+			op.Table = rapid.IntRange(0, ntables-1).Draw(t, "tbl")
 		case "update", "delete":
 			op.Table = rapid.IntRange(0, ntables-1).Draw(t, "tbl")
 			op.Pick = rapid.IntRange(0, 1000).Draw(t, "pick")
@@ -418,6 +421,25 @@ func c11Run(c c11Case, st *vlib.Stats) string {
 			if op.Op == "delete" {
 				live[name] = append(live[name][:idx], live[name][idx+1:]...)
 				dead[name][id] = true
+			}
+		case "wipe":
+			if err := guard(func() error {
+				var batch WALBatch
+				for _, id := range live[name] {
+					w, err := rs.MarkDeleted(name, id)
+					if err != nil {
+						return err
+					}
+					batch = append(batch, w...)
+					dead[name][id] = true
+				}
+				live[name] = nil
+				if len(batch) == 0 {
+					return nil
+				}
+				return rs.FlushWALBatch(batch)
+			}); err != nil {
+				return where + ": " + err.Error()
 			}
 		case "flush":
 			if err := guard(rs.fs.flushPages); err != nil {
